@@ -1,0 +1,8 @@
+//go:build !verif
+// +build !verif
+
+package fp
+
+func verifPath(int) {}
+
+func verifWide() {}
